@@ -429,6 +429,100 @@ func (s *ASpec) consider(n *ANode, typ string, cur M, pending interface{}, emitt
 	return []Outcome{{Consumed: consumed, Emitted: emitted}}
 }
 
+// StepLogged sharpens Step where a guard was offered several candidates: log is the sequence of bindings
+// (canonical JSON) the native action and guards of this step were actually called with, in order.  The
+// documented rule - "if the guard returns non-nil bindings, the machine's current node name is set to the
+// branch's target, and the machine's current bindings is set to those bindings" - makes the FIRST candidate
+// on which the guard decides (returns bindings, or fails) the one that counts, whatever order the
+// candidates were offered in.  ok=false: the log does not determine the outcome (use the set).
+func (s *ASpec) StepLogged(node string, bs M, pending interface{}, log []string) (Outcome, bool) {
+	n, have := s.Nodes[node]
+	if !have || n.NoBranches {
+		return Outcome{}, false
+	}
+	typ := n.Type
+	if typ == "" {
+		typ = "bindings"
+	}
+	if n.Action != nil {
+		if !n.Action.Native || (typ == "message" && !n.NoBranches) {
+			return Outcome{}, false
+		}
+		if len(log) == 0 {
+			return Outcome{}, false
+		}
+		log = log[1:]
+	}
+	cur := cloneM(bs)
+	if cur == nil {
+		cur = M{}
+	}
+	var emitted []interface{}
+	if n.Action != nil {
+		r := n.Action.Model(cur)
+		if r.Err || r.Bs == nil {
+			return Outcome{}, false // error routing and nil results: the set semantics are exact there
+		}
+		emitted, cur = r.Emitted, r.Bs
+	}
+	consumed := false
+	var against interface{}
+	if typ == "message" {
+		if pending == nil {
+			return Outcome{}, false
+		}
+		consumed, against = true, pending
+	} else {
+		against = map[string]interface{}(cur)
+	}
+	for _, br := range n.Branches {
+		var cands []M
+		if br.Pattern != nil {
+			bss, err := match.Match(clone(br.Pattern), clone(against), match.Bindings(cloneM(cur)))
+			if err != nil {
+				return Outcome{}, false
+			}
+			for _, b := range bss {
+				cands = append(cands, M(b))
+			}
+		} else {
+			cands = []M{cloneM(cur)}
+		}
+		if br.Guard == nil {
+			if len(cands) == 0 {
+				continue
+			}
+			return Outcome{}, false
+		}
+		if !br.Guard.Native {
+			return Outcome{}, false
+		}
+		left := map[string][]M{}
+		for _, c := range cands {
+			k := Canon(map[string]interface{}(c))
+			left[k] = append(left[k], c)
+		}
+		tried := 0
+		for len(log) > 0 && len(left[log[0]]) > 0 {
+			c := left[log[0]][0]
+			left[log[0]] = left[log[0]][1:]
+			log = log[1:]
+			tried++
+			r := br.Guard.Model(c)
+			if r.Err {
+				return Outcome{Err: "guard-error", Consumed: consumed, Emitted: emitted}, true
+			}
+			if r.Bs != nil {
+				return Outcome{HasTo: true, Node: resolveTarget(br.Target, r.Bs), Bs: r.Bs, Consumed: consumed, Emitted: emitted}, true
+			}
+		}
+		if tried != len(cands) {
+			return Outcome{}, false // not every candidate was offered: the set semantics judge that
+		}
+	}
+	return Outcome{}, false
+}
+
 func dedup(outs []Outcome) []Outcome {
 	seen := map[string]bool{}
 	var r []Outcome
